@@ -153,10 +153,10 @@ let run_case (v : variant) (line : string) (impl : string option) : string =
                 let (s', _) = cstep v c !s (CRelease (nn sid, nn k, dl)) in s := s'; emit "ok"
               | "P" :: sid :: mk :: ip :: a :: b :: rest ->
                 let bulk = (match rest with [x] -> nn x | _ -> N0) in
-                let (s', _) = cstep v c !s (CRestorePresent (nn sid, nn mk, blk ip a b, bulk)) in s := s'; emit "ok"
+                let (s', o) = cstep v c !s (CRestorePresent (nn sid, nn mk, blk ip a b, bulk, obs i)) in s := s'; emit (show_out_dp o)
               | ["C"] -> let (s', _) = cstep v c !s CComplete in s := s'; emit "ok"
               | ["D"; _; mk; ip; a; b] ->
-                let (s', _) = cstep v c !s (CRestoreDegraded (nn mk, blk ip a b)) in s := s'; emit "ok"
+                let (s', _) = cstep v c !s (CRestoreDegraded (nn mk, blk ip a b)) in s := s'; emit "nodp"
               | ["d"] ->
                 let sess = List.sort compare (List.map int_of_n !s.cp_sess) in
                 let sess = if sess = [] then "-" else String.concat "," (List.map string_of_int sess) in
